@@ -29,9 +29,9 @@ ASSUMPTIONS = [
 ]
 
 WORDS = ["zorgon", "Kwyjibo", "mgmtx"]
-ASNS = ["65001", "123", "4200000001"]
+ASNS = ["65001", "123", "4200000001", "65546"]
 _kw3 = [k.lower() for k in S.KEYWORDS if len(k) >= 3] + [w.lower() for w in WORDS]
-VOCAB = [w for w in S.BENIGN + ["Ethernet1", "switchport", "spanning-tree", "portfast", "trunk", "native", "channel-group", "lacp", "fast", "ntp", "dns", "lookup", "up", "down", "42", "1500", "9000", "Gi0/1.100", "TenGigE0/0/0/1", "vrf-blue", "rt-import", "x", "=", "{", "}", "#comment", "\\\\path\\1", "a\\b", "100%", "(ok)", "[1]", "it's", 'say"hi"']
+VOCAB = [w for w in S.BENIGN + ["Ethernet1", "switchport", "spanning-tree", "portfast", "trunk", "native", "channel-group", "lacp", "fast", "ntp", "dns", "lookup", "up", "down", "42", "1500", "9000", "Gi0/1.100", "TenGigE0/0/0/1", "vrf-blue", "rt-import", "x", "=", "{", "}", "#comment", "\\\\path\\1", "a\\b", "100%", "(ok)", "[1]", "it's", 'say"hi"', "1.10", "rel-1.10.2", "v2.1", "1.0"]
          if not any(k in w.lower() for k in _kw3) and w not in ASNS]
 UNUSUAL_WS = ["\t", "  ", " \t ", "\x0c", "\xa0", " ", "\x1c", "   ", "\x0b", "\x85"]
 
